@@ -236,7 +236,7 @@ def compare(part, row, fmt, vtag, ps, new, text, case, cell):
         d = max(np.abs(np.array(ns["lengths"]) - np.array(ps["lengths"])).max(),
                 np.abs(np.degrees(ns["angles"]) - np.degrees(ps["angles"])).max())
         part.dev("cell_%s" % fmt, d)
-        if d > tol_cell:
+        if not (d <= tol_cell):
             part.fail("cell:%s:%s" % (key, sk), "%s: cell parameters differ by %g after the round trip of %s" % (fmt, d, sk), case)
         if ns["number"] != ps["number"] or ns["codes"] != ps["codes"]:
             part.fail("spacegroup:%s:%s" % (key, sk), "%s: space group %s:%s (%d ops) read back as %s:%s (%d ops)"
@@ -250,7 +250,7 @@ def compare(part, row, fmt, vtag, ps, new, text, case, cell):
         else:
             dp = np.abs(ns["pos"] - ps["pos"]).max()
             part.dev("frac_%s" % fmt, dp)
-            if dp > 5.0e-13 + 1e-15:
+            if not (dp <= 5.0e-13 + 1e-15):
                 part.fail("coords:%s:%s" % (key, sk), "%s: fractional coordinates differ by %g (written precision 1e-12)" % (fmt, dp), case)
         if fmt == "cif":
             o0 = ps["occ"] if ps["occ"] is not None else np.ones(len(ps["Z"]))
@@ -297,7 +297,7 @@ def compare(part, row, fmt, vtag, ps, new, text, case, cell):
             part.fail("poscar-not-P1:%s" % sk, "POSCAR read back in space group %s" % ns["number"], case)
         d = np.abs(ns["direct"] - ps["direct"]).max()
         part.dev("lattice_poscar", d)
-        if d > 5e-9 + 1e-12:
+        if not (d <= 5e-9 + 1e-12):
             part.fail("poscar-lattice:%s:%s" % (vtag, sk), "POSCAR: lattice vectors differ by %g" % d, case)
         E, Zs = expected_uc(ops, ps["pos"], ps["Z"])
         got = np.mod(ns["pos"], 1.0)
